@@ -15,6 +15,10 @@ func runExtraProfile(name, root string, w *bufio.Writer, seed uint64, n, ops int
 		genLock(w, root, seed, n, ops)
 	case "notify":
 		genNotifyProfile(w, seed, n, ops)
+	case "free":
+		genFree(w, root, seed, n, ops)
+	case "sched":
+		genSched(w, root, seed, n, ops)
 	case "dread":
 		genDread(w, root, seed, n, ops%100, ops >= 100)
 	case "blocking":
